@@ -51,7 +51,7 @@ def plan(tier: str) -> list[dict]:
 
 def strategy(eng: str, gated: bool, seed: int):
     from hypothesis import strategies as st
-    fail = ['raise:ValueError', 'raise:UnpicklableErr', 'exit', 'baseexc'] + ([] if eng == 'serial' else ['kill9', 'kill15'])
+    fail = ['raise:ValueError', 'raise:UnpicklableErr', 'exit', 'baseexc'] + ([] if eng == 'serial' else ['kill9', 'kill15', 'exit0'])
     if seed % 2 == 0:
         s = specs.dag_spec(min_nodes=2, max_nodes=5 if eng == 'spawn' else 10, backends=(eng,), fail_modes=fail, fail_rate=30,
                            noread_rate=30, continue_on_failure=(True, True, False), max_workers=(1, 1, 2, 3, None),
@@ -79,10 +79,10 @@ def kill_focus(backend: str):
         nodes = []
         n_kill = 0
         for i in range(k):
-            mode = draw(st.sampled_from(['ok', 'ok', 'kill9', 'kill15', 'raise:ValueError']))
+            mode = draw(st.sampled_from(['ok', 'ok', 'kill9', 'kill15', 'exit0', 'raise:ValueError']))
             if i == k - 1 and n_kill == 0:
-                mode = draw(st.sampled_from(['kill9', 'kill15']))
-            n_kill += mode.startswith('kill')
+                mode = draw(st.sampled_from(['kill9', 'kill15', 'exit0']))
+            n_kill += mode.startswith('kill') or mode == 'exit0'
             nodes.append({'id': i, 'type': draw(st.sampled_from(['NN', 'N1', 'Z'])), 'name': f'n{i}', 'mode': mode, 'read': True, 'payload': None,
                           'deps': {'s': None}})
         order = draw(st.permutations(list(range(k))))
